@@ -7,27 +7,27 @@ Open Scope N_scope.
 Ltac Zify.zify_post_hook ::= Z.div_mod_to_equations.
 
 (* ---------- rawRead ---------- *)
-Lemma skip_byte f : dec_skip (S f) idByte = (_ <- rd_i8 ;; Ret tt). Proof. reflexivity. Qed.
-Lemma skip_string f : dec_skip (S f) idString = (_ <- rd_string ;; Ret tt). Proof. reflexivity. Qed.
-Lemma skip_short f : dec_skip (S f) idShort = ReadFull 2 (fun _ => Ret tt). Proof. reflexivity. Qed.
-Lemma skip_int f : dec_skip (S f) idInt = ReadFull 4 (fun _ => Ret tt). Proof. reflexivity. Qed.
-Lemma skip_float f : dec_skip (S f) idFloat = ReadFull 4 (fun _ => Ret tt). Proof. reflexivity. Qed.
-Lemma skip_long f : dec_skip (S f) idLong = ReadFull 8 (fun _ => Ret tt). Proof. reflexivity. Qed.
-Lemma skip_double f : dec_skip (S f) idDouble = ReadFull 8 (fun _ => Ret tt). Proof. reflexivity. Qed.
-Lemma skip_bytearray f : dec_skip (S f) idByteArray =
+Lemma skip_byte f dep : dskip (S f) dep idByte = (_ <- rd_i8 ;; Ret tt). Proof. reflexivity. Qed.
+Lemma skip_string f dep : dskip (S f) dep idString = (_ <- rd_string ;; Ret tt). Proof. reflexivity. Qed.
+Lemma skip_short f dep : dskip (S f) dep idShort = ReadFull 2 (fun _ => Ret tt). Proof. reflexivity. Qed.
+Lemma skip_int f dep : dskip (S f) dep idInt = ReadFull 4 (fun _ => Ret tt). Proof. reflexivity. Qed.
+Lemma skip_float f dep : dskip (S f) dep idFloat = ReadFull 4 (fun _ => Ret tt). Proof. reflexivity. Qed.
+Lemma skip_long f dep : dskip (S f) dep idLong = ReadFull 8 (fun _ => Ret tt). Proof. reflexivity. Qed.
+Lemma skip_double f dep : dskip (S f) dep idDouble = ReadFull 8 (fun _ => Ret tt). Proof. reflexivity. Qed.
+Lemma skip_bytearray f dep : dskip (S f) dep idByteArray =
   (n <- rd_i32 ;; if (n <? 0)%Z then Fail eNeg else ReadFull (Z.to_N n) (fun _ => Ret tt)).
 Proof. reflexivity. Qed.
-Lemma skip_intarray f : dec_skip (S f) idIntArray =
+Lemma skip_intarray f dep : dskip (S f) dep idIntArray =
   (n <- rd_i32 ;; if (n <? 0)%Z then Fail eNeg else _ <- rep f (Z.to_N n) rd_i32 [] ;; Ret tt).
 Proof. reflexivity. Qed.
-Lemma skip_longarray f : dec_skip (S f) idLongArray =
+Lemma skip_longarray f dep : dskip (S f) dep idLongArray =
   (n <- rd_i32 ;; if (n <? 0)%Z then Fail eNeg else _ <- rep f (Z.to_N n) rd_i64 [] ;; Ret tt).
 Proof. reflexivity. Qed.
-Lemma skip_list f : dec_skip (S f) idList =
-  (et <- rd_u8 ;; n <- rd_i32 ;;
-   if (n <? 0)%Z then Fail eNeg else _ <- rep f (Z.to_N n) (dec_skip f et) [] ;; Ret tt).
+Lemma skip_list f dep : dskip (S f) dep idList =
+  (if dep =? 0 then Fail eDepth else et <- rd_u8 ;; n <- rd_i32 ;;
+   if (n <? 0)%Z then Fail eNeg else _ <- rep f (Z.to_N n) (dskip f (dep - 1) et) [] ;; Ret tt).
 Proof. reflexivity. Qed.
-Lemma skip_compound f : dec_skip (S f) idCompound = comp_loop f rd_tag (dec_skip f) (fun _ _ a => a) tt.
+Lemma skip_compound f dep : dskip (S f) dep idCompound = if dep =? 0 then Fail eDepth else comp_loop f rd_tag (dskip f (dep - 1)) (fun _ _ a => a) tt.
 Proof. reflexivity. Qed.
 
 Lemma fold_left_const {X M} (l : list X) (acc : M) : fold_left (fun m _ => m) l acc = acc.
@@ -38,10 +38,10 @@ Proof.
   unfold entry_enc. cbn [length]. rewrite !app_length, be_length. pose proof (payload_pos (snd x)). lia.
 Qed.
 
-Theorem dec_skip_conforms : forall t, wf t -> forall fuel rest, (length (payload t) < fuel)%nat ->
-  run_flat (dec_skip fuel (tag_id t)) (payload t ++ rest) = FOk tt rest.
+Theorem dskip_conforms : forall t, wf t -> forall fuel dep rest, (length (payload t) < fuel)%nat -> depth t <= dep ->
+  run_flat (dskip fuel dep (tag_id t)) (payload t ++ rest) = FOk tt rest.
 Proof.
-  induction t as [v|v|v|v|b|b|l|s|eid l IH|l IH|l|l] using tag_ind'; intros W fuel rest Hf;
+  induction t as [v|v|v|v|b|b|l|s|eid l IH|l IH|l|l] using tag_ind'; intros W fuel dep rest Hf Hd;
     (destruct fuel as [|f]; [lia|]); cbn [tag_id payload].
   - rewrite skip_byte, run_flat_bind by auto with rb. apply in_swb_spec in W. now rewrite rd_i8_val.
   - rewrite skip_short, run_ReadFull_app by apply lenN_be. reflexivity.
@@ -55,25 +55,26 @@ Proof.
   - apply name_ok_spec in W. destruct W as [_ W].
     rewrite skip_string, run_flat_bind by auto with rb. rewrite <- app_assoc, rd_string_spec by exact W. reflexivity.
   - apply wf_list in W. destruct W as (He & Hne & Hl & Hall).
-    rewrite skip_list, run_flat_bind by auto with rb. cbn [app]. rewrite run_rd_u8.
+    rewrite skip_list. destruct (N.eqb_spec dep 0) as [E0|E0]; [cbn [depth] in Hd; lia|].
+    rewrite run_flat_bind by auto with rb. cbn [app]. rewrite run_rd_u8.
     rewrite run_flat_bind by auto with rb. rewrite <- app_assoc, rd_i32_len by exact Hl.
     rewrite ltb_ofN, N2Z.id. rewrite run_flat_bind by auto with rb.
     cbn [payload length] in Hf. rewrite app_length, be_length in Hf.
-    rewrite (rep_spec (dec_skip f eid) payload (fun _ => tt)).
+    rewrite (rep_spec (dskip f (dep - 1) eid) payload (fun _ => tt)).
     + reflexivity.
     + auto with rb.
     + rewrite Forall_forall in *. intros x Hx rest'. destruct (Hall x Hx) as [<- Wx].
-      apply IH; auto. pose proof (flat_map_length_in payload l x Hx). lia.
+      apply IH; auto; [pose proof (flat_map_length_in payload l x Hx); lia|pose proof (depth_list_in (tag_id x) l x Hx); lia].
     + pose proof (flat_map_length_ge payload l payload_pos). lia.
   - apply wf_compound in W.
-    rewrite skip_compound.
+    rewrite skip_compound. destruct (N.eqb_spec dep 0) as [E0|E0]; [cbn [depth] in Hd; lia|].
     cbn [payload length] in Hf. rewrite app_length in Hf. cbn [length] in Hf.
     change (fun kv : list N * tag => tag_id (snd kv) :: be 2 (lenN (fst kv)) ++ fst kv ++ payload (snd kv)) with entry_enc in *.
-    rewrite (comp_spec rd_tag (dec_skip f) _ (fun _ => tt) rd_tag_ok).
+    rewrite (comp_spec rd_tag (dskip f (dep - 1)) _ (fun _ => tt) rd_tag_ok).
     + rewrite fold_left_const. reflexivity.
     + auto with rb.
     + rewrite Forall_forall in *. intros kv Hkv. destruct (W kv Hkv) as [Hk Wv]. split; [exact Hk|].
-      intros rest'. apply IH; auto.
+      intros rest'. apply IH; auto; [|pose proof (depth_comp_in l kv Hkv); lia].
       pose proof (flat_map_length_in entry_enc l kv Hkv) as L. unfold entry_enc at 1 in L.
       cbn [length] in L. rewrite !app_length in L. lia.
     + pose proof (flat_map_length_k entry_enc l 4 entry_len4). lia.
@@ -99,6 +100,10 @@ Proof.
       pose proof (flat_map_length_k (fun z => be 8 (u64 z)) l 8 H8). lia.
 Qed.
 
+Theorem dec_skip_conforms : forall t, wf t -> nest_ok t -> forall fuel rest, (length (payload t) < fuel)%nat ->
+  run_flat (dec_skip fuel (tag_id t)) (payload t ++ rest) = FOk tt rest.
+Proof. intros t W Hn fuel rest Hf. now apply dskip_conforms. Qed.
+
 (* ---------- the tee reader returns exactly the consumed bytes ---------- *)
 Lemma tee_spec {A} (d : dec A) : robust d -> forall s a r, run_flat d s = FOk a r ->
   exists c, s = c ++ r /\ run_flat (tee d) s = FOk (a, c) r.
@@ -115,48 +120,89 @@ Proof.
     + rewrite run_flat_bind by (apply tee_robust, Hk). rewrite Hc. reflexivity.
 Qed.
 
-Theorem dec_raw_conforms : forall t, wf t -> forall fuel rest, (length (payload t) < fuel)%nat ->
+Theorem dec_raw_conforms : forall t, wf t -> nest_ok t -> forall fuel rest, (length (payload t) < fuel)%nat ->
   run_flat (dec_raw fuel (tag_id t)) (payload t ++ rest) = FOk (tag_id t, payload t) rest.
 Proof.
-  intros t W fuel rest Hf. unfold dec_raw.
+  intros t W Hn fuel rest Hf. unfold dec_raw.
   pose proof (tag_id_range t) as Hr.
   destruct (N.eqb_spec (tag_id t) idEnd) as [E|_]; [change idEnd with 0 in E; lia|].
   rewrite run_flat_bind by auto with rb.
-  destruct (tee_spec _ (dec_skip_robust fuel (tag_id t)) _ _ _ (dec_skip_conforms t W fuel rest Hf)) as (c & Hc & Ht).
+  destruct (tee_spec _ (dec_skip_robust fuel (tag_id t)) _ _ _ (dec_skip_conforms t W Hn fuel rest Hf)) as (c & Hc & Ht).
   rewrite Ht. apply app_inv_tail in Hc. subst c. reflexivity.
 Qed.
 
+(* the tee changes nothing but the value, whatever the outcome; and the driver's capture computes the same *)
+Lemma tee_result {A} (d : dec A) : robust d -> forall s,
+  match run_flat d s with
+  | FOk a r => exists c, s = c ++ r /\ run_flat (tee d) s = FOk (a, c) r
+  | FErr e => run_flat (tee d) s = FErr e
+  | FPanic w => run_flat (tee d) s = FPanic w
+  | FFuel => run_flat (tee d) s = FFuel
+  end.
+Proof.
+  induction 1 as [a0|e|w| |k Hk IH|n k Hk IH]; intros s; cbn [run_flat tee]; try reflexivity.
+  - exists []. auto.
+  - destruct s as [|b s']; [reflexivity|]. specialize (IH b s').
+    rewrite run_flat_bind by (apply tee_robust, Hk).
+    destruct (run_flat (k b) s') as [a r| | |]; [destruct IH as (c & -> & ->); exists (b :: c); auto| | |]; now rewrite IH.
+  - destruct (n <=? lenN s); [|reflexivity]. specialize (IH (takeN n s) (dropN n s)).
+    rewrite run_flat_bind by (apply tee_robust, Hk).
+    destruct (run_flat (k (takeN n s)) (dropN n s)) as [a r| | |]; [|now rewrite IH..].
+    destruct IH as (c & Hc & ->). exists (takeN n s ++ c). split; [|reflexivity].
+    rewrite <- app_assoc, <- Hc. unfold takeN, dropN. symmetry. apply firstn_skipn.
+Qed.
+
+Theorem capture_eq {A} (d : dec A) : robust d -> forall s, capture d s = run_flat (tee d) s.
+Proof.
+  intros R s. unfold capture. rewrite run_fast_eq. pose proof (tee_result d R s) as T.
+  destruct (run_flat d s) as [a r| | |]; try (now rewrite T).
+  destruct T as (c & -> & ->). rewrite app_length. replace (length c + length r - length r)%nat with (length c) by lia.
+  rewrite firstn_app, Nat.sub_diag, firstn_all. cbn [firstn]. now rewrite app_nil_r.
+Qed.
+
+Theorem decode_raw_fast_eq f fuel s : decode_raw_fast f fuel s = run_flat (Decode f (dec_raw fuel)) s.
+Proof.
+  unfold decode_raw_fast, Decode. rewrite run_fast_eq.
+  change (match f with File => rd_tag | Net => t <- rd_u8 ;; Ret (t, []) end) with (decode_hdr f).
+  rewrite run_flat_bind by auto with rb.
+  destruct (run_flat (decode_hdr f) s) as [tn r| | |]; try reflexivity.
+  rewrite run_flat_bind by auto with rb. unfold dec_raw.
+  destruct (fst tn =? idEnd); [reflexivity|].
+  rewrite run_flat_bind by auto with rb. rewrite capture_eq by auto with rb.
+  destruct (run_flat (tee (dec_skip fuel (fst tn))) r) as [ac r'| | |]; reflexivity.
+Qed.
+
 (* ---------- binary -> text walker ---------- *)
-Lemma text_byte f : dec_text (S f) idByte = (_ <- rd_u8 ;; Ret tt). Proof. reflexivity. Qed.
-Lemma text_string f : dec_text (S f) idString = (_ <- rd_string ;; Ret tt). Proof. reflexivity. Qed.
-Lemma text_short f : dec_text (S f) idShort = (_ <- rd_i16 ;; Ret tt). Proof. reflexivity. Qed.
-Lemma text_int f : dec_text (S f) idInt = (_ <- rd_i32 ;; Ret tt). Proof. reflexivity. Qed.
-Lemma text_float f : dec_text (S f) idFloat = (_ <- rd_i32 ;; Ret tt). Proof. reflexivity. Qed.
-Lemma text_long f : dec_text (S f) idLong = (_ <- rd_i64 ;; Ret tt). Proof. reflexivity. Qed.
-Lemma text_double f : dec_text (S f) idDouble = (_ <- rd_i64 ;; Ret tt). Proof. reflexivity. Qed.
-Lemma text_bytearray f : dec_text (S f) idByteArray =
+Lemma text_byte f dep : dtext (S f) dep idByte = (_ <- rd_u8 ;; Ret tt). Proof. reflexivity. Qed.
+Lemma text_string f dep : dtext (S f) dep idString = (_ <- rd_string ;; Ret tt). Proof. reflexivity. Qed.
+Lemma text_short f dep : dtext (S f) dep idShort = (_ <- rd_i16 ;; Ret tt). Proof. reflexivity. Qed.
+Lemma text_int f dep : dtext (S f) dep idInt = (_ <- rd_i32 ;; Ret tt). Proof. reflexivity. Qed.
+Lemma text_float f dep : dtext (S f) dep idFloat = (_ <- rd_i32 ;; Ret tt). Proof. reflexivity. Qed.
+Lemma text_long f dep : dtext (S f) dep idLong = (_ <- rd_i64 ;; Ret tt). Proof. reflexivity. Qed.
+Lemma text_double f dep : dtext (S f) dep idDouble = (_ <- rd_i64 ;; Ret tt). Proof. reflexivity. Qed.
+Lemma text_bytearray f dep : dtext (S f) dep idByteArray =
   (n <- rd_i32 ;; if (n <? 0)%Z then Fail eNeg else _ <- rep f (Z.to_N n) rd_u8 [] ;; Ret tt).
 Proof. reflexivity. Qed.
-Lemma text_intarray f : dec_text (S f) idIntArray =
+Lemma text_intarray f dep : dtext (S f) dep idIntArray =
   (n <- rd_i32 ;; if (n <? 0)%Z then Fail eNeg else _ <- rep f (Z.to_N n) rd_i32 [] ;; Ret tt).
 Proof. reflexivity. Qed.
-Lemma text_longarray f : dec_text (S f) idLongArray =
+Lemma text_longarray f dep : dtext (S f) dep idLongArray =
   (n <- rd_i32 ;; if (n <? 0)%Z then Fail eNeg else _ <- rep f (Z.to_N n) rd_i64 [] ;; Ret tt).
 Proof. reflexivity. Qed.
-Lemma text_list f : dec_text (S f) idList =
-  (et <- rd_u8 ;; n <- rd_i32 ;;
-   if (n <? 0)%Z then Fail eNeg else _ <- rep f (Z.to_N n) (dec_text f et) [] ;; Ret tt).
+Lemma text_list f dep : dtext (S f) dep idList =
+  (if dep =? 0 then Fail eDepth else et <- rd_u8 ;; n <- rd_i32 ;;
+   if (n <? 0)%Z then Fail eNeg else _ <- rep f (Z.to_N n) (dtext f (dep - 1) et) [] ;; Ret tt).
 Proof. reflexivity. Qed.
-Lemma text_compound f : dec_text (S f) idCompound = comp_loop f rd_tag (dec_text f) (fun _ _ a => a) tt.
+Lemma text_compound f dep : dtext (S f) dep idCompound = if dep =? 0 then Fail eDepth else comp_loop f rd_tag (dtext f (dep - 1)) (fun _ _ a => a) tt.
 Proof. reflexivity. Qed.
 
 Lemma flat_map_single (l : list N) : flat_map (fun b => [b]) l = l.
 Proof. induction l; cbn [flat_map app]; congruence. Qed.
 
-Theorem dec_text_conforms : forall t, wf t -> forall fuel rest, (length (payload t) < fuel)%nat ->
-  run_flat (dec_text fuel (tag_id t)) (payload t ++ rest) = FOk tt rest.
+Theorem dtext_conforms : forall t, wf t -> forall fuel dep rest, (length (payload t) < fuel)%nat -> depth t <= dep ->
+  run_flat (dtext fuel dep (tag_id t)) (payload t ++ rest) = FOk tt rest.
 Proof.
-  induction t as [v|v|v|v|b|b|l|s|eid l IH|l IH|l|l] using tag_ind'; intros W fuel rest Hf;
+  induction t as [v|v|v|v|b|b|l|s|eid l IH|l IH|l|l] using tag_ind'; intros W fuel dep rest Hf Hd;
     (destruct fuel as [|f]; [lia|]); cbn [tag_id payload].
   - rewrite text_byte, run_flat_bind by auto with rb. rewrite be1. reflexivity.
   - rewrite text_short, run_flat_bind by auto with rb. apply in_swb_spec in W. now rewrite rd_i16_val.
@@ -177,25 +223,26 @@ Proof.
   - apply name_ok_spec in W. destruct W as [_ W].
     rewrite text_string, run_flat_bind by auto with rb. rewrite <- app_assoc, rd_string_spec by exact W. reflexivity.
   - apply wf_list in W. destruct W as (He & Hne & Hl & Hall).
-    rewrite text_list, run_flat_bind by auto with rb. cbn [app]. rewrite run_rd_u8.
+    rewrite text_list. destruct (N.eqb_spec dep 0) as [E0|E0]; [cbn [depth] in Hd; lia|].
+    rewrite run_flat_bind by auto with rb. cbn [app]. rewrite run_rd_u8.
     rewrite run_flat_bind by auto with rb. rewrite <- app_assoc, rd_i32_len by exact Hl.
     rewrite ltb_ofN, N2Z.id. rewrite run_flat_bind by auto with rb.
     cbn [payload length] in Hf. rewrite app_length, be_length in Hf.
-    rewrite (rep_spec (dec_text f eid) payload (fun _ => tt)).
+    rewrite (rep_spec (dtext f (dep - 1) eid) payload (fun _ => tt)).
     + reflexivity.
     + auto with rb.
     + rewrite Forall_forall in *. intros x Hx rest'. destruct (Hall x Hx) as [<- Wx].
-      apply IH; auto. pose proof (flat_map_length_in payload l x Hx). lia.
+      apply IH; auto; [pose proof (flat_map_length_in payload l x Hx); lia|pose proof (depth_list_in (tag_id x) l x Hx); lia].
     + pose proof (flat_map_length_ge payload l payload_pos). lia.
   - apply wf_compound in W.
-    rewrite text_compound.
+    rewrite text_compound. destruct (N.eqb_spec dep 0) as [E0|E0]; [cbn [depth] in Hd; lia|].
     cbn [payload length] in Hf. rewrite app_length in Hf. cbn [length] in Hf.
     change (fun kv : list N * tag => tag_id (snd kv) :: be 2 (lenN (fst kv)) ++ fst kv ++ payload (snd kv)) with entry_enc in *.
-    rewrite (comp_spec rd_tag (dec_text f) _ (fun _ => tt) rd_tag_ok).
+    rewrite (comp_spec rd_tag (dtext f (dep - 1)) _ (fun _ => tt) rd_tag_ok).
     + rewrite fold_left_const. reflexivity.
     + auto with rb.
     + rewrite Forall_forall in *. intros kv Hkv. destruct (W kv Hkv) as [Hk Wv]. split; [exact Hk|].
-      intros rest'. apply IH; auto.
+      intros rest'. apply IH; auto; [|pose proof (depth_comp_in l kv Hkv); lia].
       pose proof (flat_map_length_in entry_enc l kv Hkv) as L. unfold entry_enc at 1 in L.
       cbn [length] in L. rewrite !app_length in L. lia.
     + pose proof (flat_map_length_k entry_enc l 4 entry_len4). lia.
@@ -221,37 +268,41 @@ Proof.
       pose proof (flat_map_length_k (fun z => be 8 (u64 z)) l 8 H8). lia.
 Qed.
 
+Theorem dec_text_conforms : forall t, wf t -> nest_ok t -> forall fuel rest, (length (payload t) < fuel)%nat ->
+  run_flat (dec_text fuel (tag_id t)) (payload t ++ rest) = FOk tt rest.
+Proof. intros t W Hn fuel rest Hf. now apply dtext_conforms. Qed.
+
 (* ---------- dynbt ---------- *)
-Lemma dyn_byte f : dec_dyn (S f) idByte = (b <- rd_u8 ;; Ret (DData idByte [b])). Proof. reflexivity. Qed.
-Lemma dyn_short f : dec_dyn (S f) idShort = ReadFull 2 (fun bs => Ret (DData idShort bs)). Proof. reflexivity. Qed.
-Lemma dyn_int f : dec_dyn (S f) idInt = ReadFull 4 (fun bs => Ret (DData idInt bs)). Proof. reflexivity. Qed.
-Lemma dyn_float f : dec_dyn (S f) idFloat = ReadFull 4 (fun bs => Ret (DData idFloat bs)). Proof. reflexivity. Qed.
-Lemma dyn_long f : dec_dyn (S f) idLong = ReadFull 8 (fun bs => Ret (DData idLong bs)). Proof. reflexivity. Qed.
-Lemma dyn_double f : dec_dyn (S f) idDouble = ReadFull 8 (fun bs => Ret (DData idDouble bs)). Proof. reflexivity. Qed.
-Lemma dyn_bytearray f : dec_dyn (S f) idByteArray =
+Lemma dyn_byte f dep : ddyn (S f) dep idByte = (b <- rd_u8 ;; Ret (DData idByte [b])). Proof. reflexivity. Qed.
+Lemma dyn_short f dep : ddyn (S f) dep idShort = ReadFull 2 (fun bs => Ret (DData idShort bs)). Proof. reflexivity. Qed.
+Lemma dyn_int f dep : ddyn (S f) dep idInt = ReadFull 4 (fun bs => Ret (DData idInt bs)). Proof. reflexivity. Qed.
+Lemma dyn_float f dep : ddyn (S f) dep idFloat = ReadFull 4 (fun bs => Ret (DData idFloat bs)). Proof. reflexivity. Qed.
+Lemma dyn_long f dep : ddyn (S f) dep idLong = ReadFull 8 (fun bs => Ret (DData idLong bs)). Proof. reflexivity. Qed.
+Lemma dyn_double f dep : ddyn (S f) dep idDouble = ReadFull 8 (fun bs => Ret (DData idDouble bs)). Proof. reflexivity. Qed.
+Lemma dyn_bytearray f dep : ddyn (S f) dep idByteArray =
   ReadFull 4 (fun h => let n := sx32 (unbe h) in
     if (n <? 0)%Z then Fail eNeg else ReadFull (Z.to_N n) (fun bs => Ret (DData idByteArray (h ++ bs)))).
 Proof. reflexivity. Qed.
-Lemma dyn_string f : dec_dyn (S f) idString =
+Lemma dyn_string f dep : ddyn (S f) dep idString =
   ReadFull 2 (fun h => let n := sx16 (unbe h) in
     if (n <? 0)%Z then Fail eNeg else ReadFull (Z.to_N n) (fun bs => Ret (DData idString (h ++ bs)))).
 Proof. reflexivity. Qed.
-Lemma dyn_intarray f : dec_dyn (S f) idIntArray =
+Lemma dyn_intarray f dep : ddyn (S f) dep idIntArray =
   ReadFull 4 (fun h => let n := sx32 (unbe h) in
     if (n <? 0)%Z then Fail eNeg else ReadFull (4 * Z.to_N n) (fun bs => Ret (DData idIntArray (h ++ bs)))).
 Proof. reflexivity. Qed.
-Lemma dyn_longarray f : dec_dyn (S f) idLongArray =
+Lemma dyn_longarray f dep : ddyn (S f) dep idLongArray =
   ReadFull 4 (fun h => let n := sx32 (unbe h) in
     if (n <? 0)%Z then Fail eNeg else ReadFull (8 * Z.to_N n) (fun bs => Ret (DData idLongArray (h ++ bs)))).
 Proof. reflexivity. Qed.
-Lemma dyn_list f : dec_dyn (S f) idList =
-  (t <- rd_u8 ;; n <- rd_i32 ;;
+Lemma dyn_list f dep : ddyn (S f) dep idList =
+  (if dep =? 0 then Fail eDepth else t <- rd_u8 ;; n <- rd_i32 ;;
    if (n <? 0)%Z then Fail eNeg
    else if (t =? idEnd) && (0 <? n)%Z then Fail eEND
-   else l <- rep f (Z.to_N n) (dec_dyn f t) [] ;; Ret (DList l)).
+   else l <- rep f (Z.to_N n) (ddyn f (dep - 1) t) [] ;; Ret (DList l)).
 Proof. reflexivity. Qed.
-Lemma dyn_compound f : dec_dyn (S f) idCompound =
-  (m <- comp_loop f rd_tag_dyn (dec_dyn f) (fun k v m => (k, v) :: m) [] ;; Ret (DComp (rev_append m []))).
+Lemma dyn_compound f dep : ddyn (S f) dep idCompound =
+  (if dep =? 0 then Fail eDepth else m <- comp_loop f rd_tag_dyn (ddyn f (dep - 1)) (fun k v m => (k, v) :: m) [] ;; Ret (DComp (rev_append m []))).
 Proof. reflexivity. Qed.
 
 Lemma sx32_len x : x < 2 ^ 31 -> sx32 (unbe (be 4 x)) = Z.of_N x.
@@ -277,10 +328,10 @@ Proof.
   rewrite IH, <- app_assoc. reflexivity.
 Qed.
 
-Theorem dec_dyn_conforms : forall t, wf t -> forall fuel rest, (length (payload t) < fuel)%nat ->
-  run_flat (dec_dyn fuel (tag_id t)) (payload t ++ rest) = FOk (dyn_of t) rest.
+Theorem ddyn_conforms : forall t, wf t -> forall fuel dep rest, (length (payload t) < fuel)%nat -> depth t <= dep ->
+  run_flat (ddyn fuel dep (tag_id t)) (payload t ++ rest) = FOk (dyn_of t) rest.
 Proof.
-  induction t as [v|v|v|v|b|b|l|s|eid l IH|l IH|l|l] using tag_ind'; intros W fuel rest Hf;
+  induction t as [v|v|v|v|b|b|l|s|eid l IH|l IH|l|l] using tag_ind'; intros W fuel dep rest Hf Hd;
     (destruct fuel as [|f]; [lia|]); cbn [tag_id payload dyn_of].
   - rewrite dyn_byte, run_flat_bind by auto with rb. rewrite be1. reflexivity.
   - rewrite dyn_short, run_ReadFull_app by apply lenN_be. reflexivity.
@@ -297,7 +348,8 @@ Proof.
     cbv zeta. rewrite sx16_len by exact W. rewrite ltb_ofN, N2Z.id.
     rewrite run_ReadFull_app by reflexivity. reflexivity.
   - apply wf_list in W. destruct W as (He & Hne & Hl & Hall).
-    rewrite dyn_list, run_flat_bind by auto with rb. cbn [app]. rewrite run_rd_u8.
+    rewrite dyn_list. destruct (N.eqb_spec dep 0) as [E0|E0]; [cbn [depth] in Hd; lia|].
+    rewrite run_flat_bind by auto with rb. cbn [app]. rewrite run_rd_u8.
     rewrite run_flat_bind by auto with rb. rewrite <- app_assoc, rd_i32_len by exact Hl.
     rewrite ltb_ofN, N2Z.id.
     assert ((eid =? idEnd) && (0 <? Z.of_N (lenN l))%Z = false) as ->.
@@ -306,22 +358,23 @@ Proof.
       destruct (N.eqb_spec eid idEnd) as [E|_]; [change idEnd with 0 in E; lia|reflexivity]. }
     rewrite run_flat_bind by auto with rb.
     cbn [payload length] in Hf. rewrite app_length, be_length in Hf.
-    rewrite (rep_spec (dec_dyn f eid) payload dyn_of).
+    rewrite (rep_spec (ddyn f (dep - 1) eid) payload dyn_of).
     + reflexivity.
     + auto with rb.
     + rewrite Forall_forall in *. intros x Hx rest'. destruct (Hall x Hx) as [<- Wx].
-      apply IH; auto. pose proof (flat_map_length_in payload l x Hx). lia.
+      apply IH; auto; [pose proof (flat_map_length_in payload l x Hx); lia|pose proof (depth_list_in (tag_id x) l x Hx); lia].
     + pose proof (flat_map_length_ge payload l payload_pos). lia.
   - apply wf_compound in W.
-    rewrite dyn_compound, run_flat_bind by auto with rb.
+    rewrite dyn_compound. destruct (N.eqb_spec dep 0) as [E0|E0]; [cbn [depth] in Hd; lia|].
+    rewrite run_flat_bind by auto with rb.
     cbn [payload length] in Hf. rewrite app_length in Hf. cbn [length] in Hf.
     change (fun kv : list N * tag => tag_id (snd kv) :: be 2 (lenN (fst kv)) ++ fst kv ++ payload (snd kv)) with entry_enc in *.
-    rewrite (comp_spec rd_tag_dyn (dec_dyn f) _ dyn_of rd_tag_dyn_ok).
+    rewrite (comp_spec rd_tag_dyn (ddyn f (dep - 1)) _ dyn_of rd_tag_dyn_ok).
     + rewrite (fold_left_cons_rev (fun kv => (fst kv, dyn_of (snd kv)))).
       cbn [run_flat]. rewrite rev_append_rev, !app_nil_r, rev_involutive. reflexivity.
     + auto with rb.
     + rewrite Forall_forall in *. intros kv Hkv. destruct (W kv Hkv) as [Hk Wv]. split; [exact Hk|].
-      intros rest'. apply IH; auto.
+      intros rest'. apply IH; auto; [|pose proof (depth_comp_in l kv Hkv); lia].
       pose proof (flat_map_length_in entry_enc l kv Hkv) as L. unfold entry_enc at 1 in L.
       cbn [length] in L. rewrite !app_length in L. lia.
     + pose proof (flat_map_length_k entry_enc l 4 entry_len4). lia.
@@ -336,6 +389,10 @@ Proof.
     rewrite run_ReadFull_app; [reflexivity|].
     apply lenN_flat_map_k. intros x. apply lenN_be.
 Qed.
+
+Theorem dec_dyn_conforms : forall t, wf t -> nest_ok t -> forall fuel rest, (length (payload t) < fuel)%nat ->
+  run_flat (dec_dyn fuel (tag_id t)) (payload t ++ rest) = FOk (dyn_of t) rest.
+Proof. intros t W Hn fuel rest Hf. now apply ddyn_conforms. Qed.
 
 (* ---------- documents ---------- *)
 Lemma Decode_doc {A} f (body : N -> dec A) name t rest v :
